@@ -19,15 +19,17 @@ MANIFEST = dict(
          "constant, the factors of the LAMMPS dump reader/writer/data reader and the element table; it proves the "
          "algebraic identities on the exponent vectors and discovers which places encode the same quantity. The "
          "driver calls UnitConverter::convert for all pairs, reads the constants, pushes one-atom files through the "
-         "real LAMMPS reader/writer and queries tools::Elements; each factor is compared with the CODATA-2018/SI "
+         "real LAMMPS, gro, xyz, pdb and DL_POLY readers/writers (second frame on the same reader, topology and "
+         "trajectory entry points, negative values) and queries tools::Elements (all tables); each factor is compared with the CODATA-2018/SI "
          "evaluation of its vector (rel 5e-5 = four significant digits) and each identity with 1. A second, "
          "mode-H spec (ElementsHist) enumerates every history of tools::Elements lookups (hits, misses, boundary "
          "masses) up to depth 3 (thorough: simulated to depth 8); each is replayed on one real object and every "
          "answer must equal that of a fresh object and the spec's answer class (queries leave no trace).",
     note="Trusted: TLC, the generator values embedded in the checker (self-checked through three CODATA relations), "
          "the text driver protocol. Not covered: constants added to constants.h later (the driver lists them by "
-         "name), other trajectory formats' unit handling (C08), VdW radii / polarizabilities of tools::Elements, "
-         "element masses beyond a 2e-3 sanity band, elements the library does not know (La-Lu, Z>86).")
+         "name), h5md/gromacs binary formats, DL_POLY CONFIG/FIELD, time units of the formats, radii and "
+         "polarizability values beyond unit bands, element masses beyond a 2e-3 band, elements the library does "
+         "not know (La-Lu, Z>86).")
 
 # ---------------------------------------------------------------------------------------------
 # Generator values.  SI-2019 exact: c, h, e, k_B, N_A.  CODATA 2018 (Tiesinga et al., Rev. Mod. Phys. 93,
@@ -72,6 +74,55 @@ def pid(p):
 
 def termstr(terms):
     return " * ".join("%s^%d" % (pid(t["p"]), t["x"]) for t in terms)
+
+
+# ---------------------------------------------------------------------------------------------
+# other trajectory formats: the checker writes reader inputs / parses writer outputs (text layout only)
+def _io_reader_file(fmt, path, L, x, v, f):
+    """one bead 'C' of residue RES in FILE units (gro: nm, nm/ps; xyz/pdb: A; dlph: A, A/ps, u A/ps^2)"""
+    with open(path, "w") as o:
+        if fmt == "gro":
+            o.write("verification frame\n    1\n")
+            o.write("%5d%-5s%5s%5d%8.3f%8.3f%8.3f%8.4f%8.4f%8.4f\n" % ((1, "RES", "C", 1) + tuple(x) + tuple(v)))
+            o.write("%10.5f%10.5f%10.5f\n" % tuple(L))
+        elif fmt == "xyz":
+            o.write("1\nverification frame\nC %r %r %r\n" % tuple(x))
+        elif fmt == "pdb":
+            o.write("CRYST1%9.3f%9.3f%9.3f%7.2f%7.2f%7.2f P 1           1\n" % (tuple(L) + (90.0, 90.0, 90.0)))
+            o.write("ATOM  %5d %-4s %3s %1s%4d    %8.3f%8.3f%8.3f%6.2f%6.2f          %2s  \n" % (
+                (1, " C", "RES", "A", 1) + tuple(x) + (1.0, 0.0, "C")))
+            o.write("END\n")
+        elif fmt == "dlph":
+            o.write("verification frame\n%10d%10d%10d\n" % (2, 2, 1))
+            o.write("timestep%10d%10d%10d%10d%12.6f%12.6f\n" % (7, 1, 2, 2, 0.001, 0.007))
+            for k in range(3):
+                o.write("".join("%20.10f" % (L[k] if j == k else 0.0) for j in range(3)) + "\n")
+            o.write("%-8s%10d%12.6f%12.6f\n" % ("C", 1, 12.0, 0.5))
+            for vec in (x, v, f):
+                o.write("".join("%20.10f" % c for c in vec) + "\n")
+
+
+def _io_parse_written(fmt, path):
+    """numbers as the real writer printed them: dict pos/vel/frc/box -> 3 floats (what the format stores)"""
+    ls = open(path).read().splitlines()
+    fl = lambda toks: [float(t) for t in toks]
+    if fmt == "gro":
+        a = ls[2]
+        return {"pos": fl([a[20:28], a[28:36], a[36:44]]), "vel": fl([a[44:52], a[52:60], a[60:68]]),
+                "box": fl(ls[3].split()[:3])}
+    if fmt == "xyz":
+        return {"pos": fl(ls[2].split()[1:4])}
+    if fmt == "pdb":
+        a = [l for l in ls if l.startswith(("ATOM", "HETATM"))][0]
+        return {"pos": fl([a[30:38], a[38:46], a[46:54]])}
+    if fmt == "dlph":
+        return {"box": [fl(ls[3 + k].split())[k] for k in range(3)], "pos": fl(ls[7].split()),
+                "vel": fl(ls[8].split()), "frc": fl(ls[9].split())}
+    raise ValueError(fmt)
+
+
+IO_FORMATS = {"gro": "gro", "xyz": "xyz", "pdb": "pdb", "dlph": "dlpoly"}
+IO_Q = {"pos": "pos", "vel": "vel", "frc": "force", "box": "box"}
 
 
 # ---------------------------------------------------------------------------------------------
@@ -240,6 +291,22 @@ def run(ctx):
         for st in ("xyz", "xs", "xu"):
             items.append((("lstyle", st, i), ["lstyle %s/s%d%s.dump %s %s" % (
                 work, i, st, st, " ".join(repr(x) for x in L + p1 + p2))]))
+    # other formats (gro, xyz, pdb, dlpoly HISTORY): one bead, non-cubic box, also negative components
+    io_inputs = [((4.0, 6.0, 10.0), (1.25, 2.5, 3.75), (0.125, 0.375, 0.625), (1.5, 2.5, 3.5)),
+                 ((6.0, 4.0, 8.0), (-1.25, 2.5, -3.75), (-0.125, 0.375, -0.625), (-1.5, 2.5, -3.5))]
+    for _ in range(nrand // 4):
+        io_inputs.append((tuple(float(rng.randint(3, 9)) for _ in range(3)),) + tuple(
+            tuple(rng.choice((-1, 1)) * rng.randint(1, 63) / 8.0 for _ in range(3)) for _ in range(3)))
+    for i, (L, x, v, f) in enumerate(io_inputs):
+        for fmt in IO_FORMATS:
+            wf = "%s/w%d.%s" % (work, i, fmt)
+            items.append((("gwrite", fmt, i), ["gwrite %s %s" % (wf, " ".join(repr(c) for c in L + x + v + f))]))
+            rf = "%s/r%d.%s" % (work, i, fmt)
+            _io_reader_file(fmt, rf, L, x, v, f)
+            items.append((("gread", fmt, i), ["gread " + rf]))
+    items.append(("exprs", ["exprs"]))
+    for r in elements:
+        items.append((("rad", r["z"]), ["radii %s" % r["sym"]]))
     for r in elements:
         items.append((("el", r["z"]), ["element %d %s" % (r["z"], r["sym"])]))
     results, crashes = vlib.run_items(exe, items)
@@ -266,6 +333,7 @@ def run(ctx):
         if p[0] == "lexpr":
             lexpr[p[1]] = float(p[2])
     lobs = {}
+    reuse = {}      # vacuity guard: second frame on the same reader, topology path, trajectory path of the data reader
     lam_items = [((kind, i), kind, lam_inputs[i]) for i in range(len(lam_inputs)) for kind in ("lread", "lwrite", "ldata")]
     lam_items += [(("lstyle", st, i), "lstyle:" + st, style_inputs[i]) for i in range(len(style_inputs))
                   for st in ("xyz", "xs", "xu")]
@@ -282,6 +350,11 @@ def run(ctx):
                 p = ln.split()
                 if p[0] == "lobs":
                     lobs.setdefault(p[1], []).append(float(p[2]))
+                elif p[0] in ("lframe", "ltopology", "ltrajectory"):
+                    reuse[p[0] + p[1]] = reuse.get(p[0] + p[1], 0) + 1
+    if not all(reuse.get(k) for k in ("lframe0", "lframe1", "ltopology1", "ltrajectory1")):
+        raise vlib.InfraError("vacuity guard: LAMMPS reuse paths not exercised: %s" % reuse)
+    ctx.extra["lammps_reuse_paths"] = reuse
     for place, vs in sorted(lobs.items()):
         ref = vs[0]
         spread = max(abs(v / ref - 1.0) for v in vs) if ref else float("inf")
@@ -293,6 +366,116 @@ def run(ctx):
             warnings.append("driver expression for %s (%r) differs from the factor observed through the real code "
                             "(%r): update harness/drivers/units.cc" % (place, lexpr[place], ref))
     ctx.sample({"observed_lammps_factors": {k: v[0] for k, v in sorted(lobs.items())}})
+
+    # ---- other formats: factor = stored / given, per component --------------------------------------
+    ioobs = {}
+    for i, (L, x, v, f) in enumerate(io_inputs):
+        given = {"pos": x, "vel": v, "frc": f, "box": L}
+        for fmt, fname in IO_FORMATS.items():
+            got = lines(("gwrite", fmt, i))
+            if not got or got[0] != "ok":
+                violation("io:%swriter:exception" % fname, "real %s writer failed: %s" % (fmt, got), {"input": io_inputs[i]})
+            else:
+                ctx.traces += 1
+                for q, vals in _io_parse_written(fmt, "%s/w%d.%s" % (work, i, fmt)).items():
+                    ioobs.setdefault("%swriter_%s" % (fname, IO_Q[q]), []).extend(o / g for o, g in zip(vals, given[q]))
+            got = lines(("gread", fmt, i))
+            exc = [ln for ln in got if ln.startswith("exc")]
+            if exc or not got:
+                violation("io:%sreader:exception" % fname, "real %s reader failed on a one-bead file: %s" % (fmt, exc or got),
+                          {"input": io_inputs[i]})
+                continue
+            ctx.traces += 1
+            for ln in got:
+                p = ln.split()
+                if p[0] == "gobs":
+                    ioobs.setdefault("%sreader_%s" % (fname, IO_Q[p[1]]), []).extend(
+                        float(o) / g for o, g in zip(p[2:5], given[p[1]]))
+    if os.environ.get("C20_DEBUG"):
+        vlib.log("ioobs", {k: v[:6] for k, v in ioobs.items()})
+    spec_io = {r["terms"][0]["p"]["a"] for r in obs if r["kind"] == "value" and r["terms"][0]["p"]["t"] == "io"}
+    for place, vs in sorted(ioobs.items()):
+        if place not in spec_io:
+            continue        # not stored by the format (xyz/pdb writer box, xyz reader box): nothing is demanded
+        ref = vs[0]
+        if ref == 0.0:
+            violation("uniform:io:%s" % place, "%s stored 0 for a non-zero value: %s" % (place, vs[:6]),
+                      {"place": place, "observed": vs[:12]})
+            continue
+        # gro prints 3/4 decimals, pdb 3, xyz 5: the inputs are multiples of 1/8 with |value| >= 0.125
+        if max(abs(v / ref - 1.0) for v in vs) > 2e-6:
+            violation("uniform:io:%s" % place, "factor applied by %s is not uniform over components/frames/signs: %s"
+                      % (place, sorted(set(vs))[:4]), {"place": place, "observed": vs[:12]})
+        val["io:" + place] = ref
+    ctx.sample({"observed_io_factors": {k: v[0] for k, v in sorted(ioobs.items())}})
+    for ln in lines("exprs"):
+        p = ln.split()
+        if p[0] == "expr":
+            val["expr:" + p[1]] = float(p[2])
+    # literal of the gromacs helper script ("k_b in gromacs units"), read from the working tree
+    import re
+    script = os.path.join(vlib.REPO, "csg/share/scripts/inverse/functions_gromacs.sh")
+    m = re.search(r'csg_calc "\$t" "\*" ([0-9.eE+-]+)', open(script).read()) if os.path.exists(script) else None
+    if not m:
+        raise vlib.InfraError("k_B literal not found in functions_gromacs.sh (script changed: update c20.py)")
+    val["expr:script_gromacs_kB"] = float(m.group(1))
+    # tools::Elements radii tables: unit switch of getCovRad, unit bands, repeated call
+    rng_ = decl["ranges"]
+    nrad = 0
+    for r in elements:
+        d = {}
+        for ln in lines(("rad", r["z"])):
+            p = ln.split()
+            if p[0] == "rad":
+                d[p[1]] = p[2]
+        sym = r["sym"]
+        g = lambda k: None if d.get(k, "!") == "!" else float(d[k])
+        if g("covrad_ang") is not None:
+            nrad += 1
+            ctx.count()
+            a = g("covrad_ang")
+            for unit, place in (("bohr", "covrad_bohr_per_ang"), ("nm", "covrad_nm_per_ang")):
+                if g("covrad_" + unit) is None:
+                    violation("element:%s:covrad-unit" % sym, "getCovRad(%s, %s) throws" % (sym, unit), r)
+                else:
+                    ioobs.setdefault(place, []).append(g("covrad_" + unit) / a)
+            if "covrad_badunit" in d and d["covrad_badunit"] != "!":
+                violation("element:%s:covrad-unit" % sym, "getCovRad(%s, 'pm') returned %s instead of rejecting the "
+                          "unknown unit" % (sym, d["covrad_badunit"]), r)
+            if g("covrad_ang_again") != a:
+                violation("element:%s:covrad-repeat" % sym, "second getCovRad(%s, ang) = %s, first %s" % (
+                    sym, d.get("covrad_ang_again"), a), r)
+            if not (rng_["covrad"][0] <= a * 1000.0 <= rng_["covrad"][1]):
+                violation("element:%s:covrad-range" % sym, "covalent radius %r A outside %s mA: wrong unit?" % (
+                    a, rng_["covrad"]), r)
+        for k in ("vdw_chelpg", "vdw_mk"):
+            if g(k) is not None:
+                ctx.count()
+                if not (rng_["vdw"][0] <= g(k) * 1000.0 <= rng_["vdw"][1]):
+                    violation("element:%s:%s-range" % (sym, k), "%s radius %r A outside %s mA: wrong unit?" % (
+                        k, g(k), rng_["vdw"]), r)
+        if g("polarizability") is not None:
+            ctx.count()
+            if not (rng_["polar"][0] <= g("polarizability") * 1e6 <= rng_["polar"][1]):
+                violation("element:%s:polarizability-range" % sym, "polarizability %r nm^3 outside %s 1e-6 nm^3: wrong "
+                          "unit?" % (g("polarizability"), rng_["polar"]), r)
+    for place in ("covrad_bohr_per_ang", "covrad_nm_per_ang"):
+        vs = ioobs.get(place, [])
+        if not vs:
+            raise vlib.InfraError("no covalent radius observed (vacuity guard)")
+        if max(abs(v / vs[0] - 1.0) for v in vs) > 1e-12:
+            violation("uniform:expr:%s" % place, "getCovRad unit factor differs between elements: %s" % sorted(set(vs))[:4],
+                      {"observed": vs[:12]})
+        val["expr:" + place] = vs[0]
+    # vacuity guards (engine side): the new layers really occurred in this run
+    need = ["io:%s%s_%s" % (f, rw, q) for f, qs in (("gro", ("pos", "vel", "box")), ("xyz", ("pos",)), ("pdb", ("pos",)),
+            ("dlpoly", ("pos", "vel", "force", "box"))) for rw in ("reader", "writer") for q in qs
+            if not (f in ("xyz", "pdb") and q != "pos")] + ["io:pdbreader_box"]
+    missing = [k for k in need if k not in val]
+    if missing or nrad < 50 or not any(c < 0 for inp in io_inputs for vec in inp[1:] for c in vec):
+        raise vlib.InfraError("vacuity guard: layers not exercised: %s (covalent radii seen: %d)" % (missing, nrad))
+    ctx.extra["layers"] = {"io_places": len([k for k in val if k.startswith("io:")]), "covalent_radii": nrad,
+                           "io_inputs": len(io_inputs)}
 
     # declared unit systems
     declared = {}
@@ -310,6 +493,25 @@ def run(ctx):
                     {"class": cls, "quantity": q, "declared": u, "spec": decl[sysname][q]})
         if not declared.get(cls):
             raise vlib.InfraError("driver reported no declared units for " + cls)
+
+    for cls, sysname in (("GROReader", "gro"), ("GROWriter", "gro"), ("XYZReader", "ang"), ("XYZWriter", "ang"),
+                         ("PDBReader", "ang"), ("PDBWriter", "ang"), ("DLPOLYTrajectoryReader", "dlpoly"),
+                         ("DLPOLYTrajectoryWriter", "dlpoly")):
+        if not declared.get(cls):
+            raise vlib.InfraError("driver reported no declared units for " + cls)
+        for q, u in sorted(declared[cls].items()):
+            if q not in decl[sysname]:
+                if sysname == "dlpoly":
+                    w = ("%s declares %s unit %s; DL_POLY stores the coherent unit of (A, u, ps): 10 J/mol resp. "
+                         "u A/ps^2 = 10 J/mol/A, which the enums cannot express (applied factor is checked against "
+                         "the coherent unit)" % (cls, q, u))
+                    if w not in warnings:
+                        warnings.append(w)
+                continue
+            ctx.count()
+            if decl[sysname][q] != u:
+                violation("declared:%s:%s" % (cls, q), "%s declares %s unit %s; the format's is %s" % (
+                    cls, q, u, decl[sysname][q]), {"class": cls, "quantity": q, "declared": u, "spec": decl[sysname][q]})
 
     # ---- 4. value obligations: place vs CODATA/SI evaluation of its vector -------------------------
     bad_ref = {}     # place id -> (value, expected, rel)
@@ -334,6 +536,19 @@ def run(ctx):
             if r["kind"] == "value" and pid(r["terms"][0]["p"]) == k:
                 ctx.sample({"place": k, "vector": {g: n for g, n in r["vec"].items() if n}, "code": val[k],
                             "reference": evalvec(r["vec"])})
+
+    # identical units: the factor is exactly 1 (not merely within four digits)
+    ndiag = 0
+    for k, v in sorted(val.items()):
+        if k.startswith("UnitConverter:"):
+            a, b = k.split(":")[2].split(">")
+            if a == b:
+                ndiag += 1
+                ctx.count()
+                if v != 1.0:
+                    violation("algebra:identity:%s" % k.split(":")[1], "%s = %r, expected exactly 1" % (k, v), {"place": k, "value": v})
+    if ndiag != 42:
+        raise vlib.InfraError("vacuity guard: %d identical-unit conversions seen, expected 42" % ndiag)
 
     # ---- 5. identity obligations ----------------------------------------------------------------------
     bad_same = []
